@@ -205,3 +205,73 @@ func debugOps2(run *Run, replay string) {
 		fmt.Printf("%d %q %d %v\n", off, src[:off][len(src)-24:], len(c.List), err)
 	}
 }
+
+func init() { props["debug-bt"] = debugBT }
+
+func debugBT(run *Run, replay string) {
+	for bi := 0; bi < 60; bi++ {
+		r := rand.New(rand.NewSource(subSeed(run.Res.Seed, bi)))
+		for _, sc := range genScenarios(r, ScenarioOpts{Histories: 2, Inject: bi%3 == 1, Gen: GenOpts{Degenerate: bi%5 == 4, DynFocus: bi%6 == 5, MaxDepth: 2}}) {
+			bodyTargetsCase(run, sc)
+		}
+		ts, _ := tfScenario(r)
+		bodyTargetsCase(run, ts)
+	}
+}
+
+func init() { props["debug-at"] = debugAT }
+
+func debugAT(run *Run, replay string) {
+	for bi := 0; bi < 60; bi++ {
+		r := rand.New(rand.NewSource(subSeed(run.Res.Seed, bi)))
+		for _, sc := range genScenarios(r, ScenarioOpts{Histories: 2, Inject: bi%3 == 1, Gen: GenOpts{Degenerate: bi%5 == 4, DynFocus: bi%6 == 5, MaxDepth: 2}}) {
+			sc.W.Collect()
+			allTokensCase(run, sc)
+		}
+		ts, _ := tfScenario(r)
+		ts.W.Collect()
+		allTokensCase(run, ts)
+		lf := literalValueFocusScenario(r)
+		lf.W.Collect()
+		allTokensCase(run, lf)
+	}
+}
+
+func init() { props["debug-lk"] = debugLK }
+
+func debugLK(run *Run, replay string) {
+	for bi := 0; bi < 80; bi++ {
+		r := rand.New(rand.NewSource(subSeed(run.Res.Seed, bi)))
+		for _, sc := range genScenarios(r, ScenarioOpts{Histories: 2, Inject: bi%3 == 1, Gen: GenOpts{Degenerate: bi%5 == 4, DynFocus: bi%2 == 1, MaxDepth: 2}}) {
+			linksCase(run, sc)
+		}
+	}
+}
+
+func init() { props["debug-mapiter"] = debugMapIter }
+
+func debugMapIter(run *Run, replay string) {
+	sch := &schema.BodySchema{Attributes: map[string]*schema.AttributeSchema{
+		"a": {IsOptional: true, Constraint: schema.LiteralType{Type: cty.Bool}},
+		"b": {IsOptional: true, Constraint: schema.LiteralType{Type: cty.Bool}},
+		"c": {IsOptional: true, Constraint: schema.LiteralType{Type: cty.Bool}},
+	}}
+	src := "a =\nb =\n"
+	counts := map[string]int{}
+	for i := 0; i < 200; i++ {
+		w := newWorld()
+		pd := w.AddPath("p", sch, map[string]string{"main.tf": src}, nil)
+		d, _ := w.Dec.Path(pd.Path)
+		c, err := d.CompletionAtPos(context.Background(), "main.tf", hcl.Pos{Line: 2, Column: 1, Byte: 4})
+		var ls []string
+		for _, x := range c.List {
+			ls = append(ls, x.Label)
+		}
+		counts[fmt.Sprint(ls, err)]++
+	}
+	fmt.Println(counts)
+	f := parseFile("main.tf", []byte(src))
+	for n, a := range f.Body.(*hclsyntax.Body).Attributes {
+		fmt.Println(n, a.SrcRange, a.NameRange, a.Expr.Range())
+	}
+}
